@@ -44,11 +44,14 @@ pub trait PrefixMatch<T: KeyOf> {
     spec fn keys_nonempty(&self) -> bool;
     /// the entry a lookup selects is a function of the dictionary and the text (A2/A3)
     spec fn pre_matched(&self, s: Seq<char>) -> Option<T>;
+    /// a "dictionary" that is a single bracket pair has that pair as its only entry
+    spec fn only_entry(&self) -> Option<T>;
     fn match_prefix_char_slice(&self, to_match: &[char]) -> (r: Option<&T>)
         ensures r matches Some(t) ==> is_prefix_of(t.pre(), to_match@)
             && (self.keys_nonempty() ==> t.pre().len() > 0),
             r matches Some(t) ==> self.pre_matched(to_match@) == Some(*t),
-            r is None ==> self.pre_matched(to_match@) is None;
+            r is None ==> self.pre_matched(to_match@) is None,
+            r matches Some(t) ==> (self.only_entry() matches Some(e) ==> *t == e);
 }
 pub trait SuffixMatch<T: KeyOf> {
     spec fn suf_matched(&self, s: Seq<char>) -> Option<T>;
@@ -101,18 +104,21 @@ impl StartsWithStr for [char] {
 impl PrefixMatch<String> for nar_dev_utils::PrefixMatchDict {
     uninterp spec fn keys_nonempty(&self) -> bool;
     uninterp spec fn pre_matched(&self, s: Seq<char>) -> Option<String>;
+    open spec fn only_entry(&self) -> Option<String> { None }
     #[verifier::external_body]
     fn match_prefix_char_slice(&self, to_match: &[char]) -> (r: Option<&String>) { nar_dev_utils::PrefixMatch::match_prefix_char_slice(self, to_match) }
 }
 impl PrefixMatch<(String, String)> for nar_dev_utils::BiFixMatchDictPair {
     uninterp spec fn keys_nonempty(&self) -> bool;
     uninterp spec fn pre_matched(&self, s: Seq<char>) -> Option<(String, String)>;
+    open spec fn only_entry(&self) -> Option<(String, String)> { None }
     #[verifier::external_body]
     fn match_prefix_char_slice(&self, to_match: &[char]) -> (r: Option<&(String, String)>) { nar_dev_utils::PrefixMatch::match_prefix_char_slice(self, to_match) }
 }
 impl PrefixMatch<(String, String)> for (String, String) {
     open spec fn keys_nonempty(&self) -> bool { self.0@.len() > 0 }
     uninterp spec fn pre_matched(&self, s: Seq<char>) -> Option<(String, String)>;
+    open spec fn only_entry(&self) -> Option<(String, String)> { Some(*self) }
     #[verifier::external_body]
     fn match_prefix_char_slice(&self, to_match: &[char]) -> (r: Option<&(String, String)>) { nar_dev_utils::PrefixMatch::match_prefix_char_slice(self, to_match) }
 }
@@ -156,4 +162,106 @@ pub open spec fn lex_format_wf(f: &NarseseFormat) -> bool {
     &&& f.compound.set_brackets.keys_nonempty()
     &&& f.compound.brackets.0@.len() > 0
     &&& f.statement.brackets.0@.len() > 0
+}
+
+// ------------------------------------------------------------------------------------------
+// C03 (lexical side): node-by-node shape of what the recursive term segmentation returns.
+// `seg(f, env, t, n)` stands for "segment_term on the text `env` may return the term t and the
+// length n": the INDUCTIVE relation generated by the four node shapes below (introduction rule
+// only: axiom_seg_intro).  It pins down WHICH slice every component is parsed from, in which
+// order, where the keyword of the node is looked up and in which dictionary.
+// ------------------------------------------------------------------------------------------
+pub uninterp spec fn seg(f: &NarseseFormat, env: Seq<char>, t: Term, n: int) -> bool;
+#[verifier::external_body]
+pub proof fn axiom_seg_intro(f: &NarseseFormat, env: Seq<char>, t: Term, n: int)
+    requires lex_atom_node(f, env, t, n) || lex_stmt_node(f, env, t, n)
+        || lex_list_node(f, env, t, n)
+    ensures seg(f, env, t, n)
+{}
+pub open spec fn tail(env: Seq<char>, i: int) -> Seq<char> { env.subrange(i, env.len() as int) }
+pub open spec fn min_int(a: int, b: int) -> int { if a <= b { a } else { b } }
+/// atom <- prefix name: the prefix is the dictionary entry matched at the start, the name is the
+/// maximal run of identifier characters that does not run into a copula
+pub open spec fn lex_atom_node(f: &NarseseFormat, env: Seq<char>, t: Term, n: int) -> bool {
+    t matches Term::Atom { prefix, name }
+    && f.atom.prefixes.pre_matched(env) == Some(prefix)
+    && prefix@.len() <= n <= env.len()
+    && name@ == env.subrange(prefix@.len() as int, n)
+    && (forall|j: int| prefix@.len() <= j < n ==> #[trigger] f.atom.is_identifier.spec_call(env[j]) && f.statement.copulas.pre_matched(tail(env, j)) is None)
+    && (n < env.len() ==> !(f.atom.is_identifier.spec_call(env[n]) && f.statement.copulas.pre_matched(tail(env, n)) is None))
+}
+/// statement <- '<' subject copula predicate '>': the subject is parsed right after the opening
+/// bracket, the copula is the entry of the COPULA dictionary matched right after the subject, the
+/// predicate follows it, then the closing bracket (leniently: it may be cut off by the end)
+pub open spec fn lex_stmt_node(f: &NarseseFormat, env: Seq<char>, t: Term, n: int) -> bool {
+    t matches Term::Statement { copula, subject, predicate }
+    && exists|sl: int, ps: int, pl: int|
+        #![trigger seg(f, tail(env, f.statement.brackets.0@.len() as int), *subject, sl), seg(f, tail(env, ps), *predicate, pl)]
+        f.statement.brackets.pre_matched(env) is Some
+        && seg(f, tail(env, f.statement.brackets.0@.len() as int), *subject, sl)
+        && (f.statement.copulas.pre_matched(tail(env, f.statement.brackets.0@.len() + sl)) matches Some(k) && k@ == copula@)
+        && ps == f.statement.brackets.0@.len() + sl + copula@.len()
+        && seg(f, tail(env, ps), *predicate, pl)
+        && lenient_prefix(tail(env, ps + pl), f.statement.brackets.1@)
+        && n == min_int(ps + pl + f.statement.brackets.1@.len(), env.len() as int)
+}
+/// where the next component starts when the cursor is at p: one separator is skipped if it
+/// stands there (leniently, clamped to the end of the text)
+pub open spec fn sep_skip(f: &NarseseFormat, env: Seq<char>, p: int) -> int {
+    if lenient_prefix(tail(env, p), f.compound.separator@) { min_int(p + f.compound.separator@.len(), env.len() as int) } else { p }
+}
+/// (trigger marker: a recursive call cannot serve as a quantifier trigger)
+pub open spec fn vx_mark(p: int) -> bool { true }
+/// the listed terms, parsed one after the other from `start`, end at `pos`: before every term
+/// (the first one of a set excepted: `first_plain`) the closing bracket is NOT at the cursor and
+/// one separator is skipped if present
+pub open spec fn lex_items(f: &NarseseFormat, env: Seq<char>, right: Seq<char>, first_plain: bool, start: int, terms: Seq<Term>, pos: int) -> bool
+    decreases terms.len()
+{
+    if terms.len() == 0 { pos == start }
+    else {
+        exists|prev: int, q: int, ln: int|
+            #![trigger vx_mark(prev), seg(f, tail(env, q), terms.last(), ln)]
+            vx_mark(prev) && lex_items(f, env, right, first_plain, start, terms.drop_last(), prev)
+            && seg(f, tail(env, q), terms.last(), ln)
+            && pos == q + ln
+            && (if first_plain && terms.len() == 1 { q == prev }
+                else { !lenient_prefix(tail(env, prev), right) && q == sep_skip(f, env, prev) })
+    }
+}
+/// compound <- '(' connecter (sep? term)* ')' with the connecter looked up in the CONNECTER
+/// dictionary right after the opening bracket; set <- left term (sep? term)* right with the
+/// bracket pair looked up in the set-bracket dictionary
+pub open spec fn lex_list_node(f: &NarseseFormat, env: Seq<char>, t: Term, n: int) -> bool {
+    match t {
+        Term::Compound { connecter, terms } =>
+            f.compound.brackets.pre_matched(env) is Some
+            && (f.compound.connecters.pre_matched(tail(env, f.compound.brackets.0@.len() as int)) matches Some(k) && k@ == connecter@)
+            && exists|st: int, pos: int| st == f.compound.brackets.0@.len() + connecter@.len()
+                && #[trigger] lex_items(f, env, f.compound.brackets.1@, false, st, terms@, pos)
+                && lenient_prefix(tail(env, pos), f.compound.brackets.1@)
+                && n == min_int(pos + f.compound.brackets.1@.len(), env.len() as int),
+        Term::Set { left_bracket, terms, right_bracket } =>
+            (f.compound.set_brackets.pre_matched(env) matches Some(p) && p.0@ == left_bracket@ && p.1@ == right_bracket@)
+            && terms@.len() >= 1
+            && exists|pos: int| #[trigger] lex_items(f, env, right_bracket@, true, left_bracket@.len() as int, terms@, pos)
+                && lenient_prefix(tail(env, pos), right_bracket@)
+                && n == min_int(pos + right_bracket@.len(), env.len() as int),
+        _ => false,
+    }
+}
+/// one more parsed term extends the list
+pub proof fn lemma_lex_items_push(f: &NarseseFormat, env: Seq<char>, right: Seq<char>, first_plain: bool, start: int, terms: Seq<Term>, prev: int, q: int, t: Term, ln: int)
+    requires
+        lex_items(f, env, right, first_plain, start, terms, prev),
+        seg(f, tail(env, q), t, ln),
+        if first_plain && terms.len() == 0 { q == prev } else { !lenient_prefix(tail(env, prev), right) && q == sep_skip(f, env, prev) },
+    ensures lex_items(f, env, right, first_plain, start, terms.push(t), q + ln)
+{
+    let nt = terms.push(t);
+    assert(nt.drop_last() =~= terms);
+    assert(nt.last() == t);
+    assert(vx_mark(prev));
+    assert(lex_items(f, env, right, first_plain, start, nt.drop_last(), prev));
+    assert(seg(f, tail(env, q), nt.last(), ln));
 }
